@@ -451,14 +451,15 @@ class LinearLeastSquares(App):
             u = xp.zeros_like(v)
 
         def minL_x():
+            # A.H may return (a view of) y itself: do not accumulate in place.
             AHy = self.A.H * self.y
             if self.G is None:
-                AHy += self.rho * (v - u)
+                AHy = AHy + self.rho * (v - u)
             else:
-                AHy += self.rho * self.G.H(v - u)
+                AHy = AHy + self.rho * self.G.H(v - u)
 
             if self.z is not None:
-                AHy += self.lamda * self.z
+                AHy = AHy + self.lamda * self.z
 
             AHA = self.A.N
             Id = linop.Identity(self.x.shape)
